@@ -1278,6 +1278,17 @@ def rule_progress(ctx):
     return r
 
 
+def rule_freshopt(ctx):
+    """Shared with C16-MEMOFACTORY / C16-FRESH preset instances (seed C05_8): a preset answers with a contraction of
+    *its* network only if the optimizer object behind it carries nothing over from earlier networks — a memoised
+    RandomGreedyOptimizer returns the earlier network's path whenever that was cheaper (repeated positions, tensors
+    left over)."""
+    from .c16 import rule_memofactory as src
+
+    return C.reuse_rule(ctx, src, "C16-MEMOFACTORY", "C05-FRESHOPT", "presets are served by optimizer objects without history",
+                        lambda i: True, 1)
+
+
 def _shared_rules():
     """Completion of partial caller-supplied paths needs the converters to know the number of inputs (F22)."""
     out = []
@@ -1293,4 +1304,4 @@ def _shared_rules():
     return out
 
 
-RULES = [rule_progress, rule_nonempty, rule_zerostep, rule_emptypath, rule_cpstate, rule_consume, rule_remain, rule_complete, rule_linearids, rule_steps, rule_childless, rule_labels, rule_edgepath] + _shared_rules()
+RULES = [rule_freshopt, rule_progress, rule_nonempty, rule_zerostep, rule_emptypath, rule_cpstate, rule_consume, rule_remain, rule_complete, rule_linearids, rule_steps, rule_childless, rule_labels, rule_edgepath] + _shared_rules()
